@@ -21,3 +21,5 @@ ASSUMPTIONS = [
 
 def run(P, R, tier):
     cache.run_all(P, R)
+    from ..engines import memo, own as owneng
+    memo.check_class(P, R, owneng.Own(P), "GMMMachine")
